@@ -1173,3 +1173,25 @@ package nbs
 //@   ensures  result1 == nil ==> verif_ghost.gGetCount > 0 && result0.IsEmpty() == verif_ghost.gGetLastEmpty && result0.Hash() == verif_ghost.gGetLastHash
 //@   ensures  result1 == nil && verif_ghost.gGetLastEmpty ==> verif_ghost.gGetCount >= 2 && (gcs.ghostGen == nil || verif_ghost.gGetGhost)
 //@   also_modifies verif_ghost.gGetCount, verif_ghost.gGetLastEmpty, verif_ghost.gGetLastHash, verif_ghost.gGetLastStore, verif_ghost.gGetGhost
+
+// ---- a table reader's prefix copy has one entry per chunk, in index order (well-formedness assumed by hasMany)
+
+//@ extern (github.com/dolthub/dolt/go/store/nbs.MemoryQuotaProvider).AcquireQuotaUint64Slice as verif_x_quota_AcquireUint64
+//@   modifies nothing
+//@   ensures err == nil ==> len(s) == sz
+// the prefix copy of the on-heap index: one entry per chunk, entry k is the prefix of tuple k
+//@ func (onHeapTableIndex).prefixes
+//@   property C01 C06
+//@   requires verif_wf_index(ti) && ti.q != nil
+//@   ensures  result2 == nil ==> len(result0) == int(ti.count) && forall k in 0..int(ti.count): result0[k] == verif_pfx(ti, uint32(k))
+//@   loop 1
+//@     invariant i <= ti.count && off == 12*uint64(i) && len(p) == int(ti.count)
+//@     invariant forall k in 0..int(i): p[k] == verif_pfx(ti, uint32(k))
+// the interface as its caller sees it (assumed; the on-heap implementation is verified against the same statement above)
+//@ extern (github.com/dolthub/dolt/go/store/nbs.tableIndex).prefixes as verif_x_tableIndex_prefixes
+//@   modifies nothing
+//@   ensures err == nil ==> uint32(len(p)) == verif_idxCount(ti) && len(p) < 1<<32
+//@ func newTableReader
+//@   property C01 C06
+//@   requires index != nil
+//@   ensures  result1 == nil ==> verif_idxCount(result0.idx) == uint32(len(result0.prefixes)) && len(result0.prefixes) < 1<<32
